@@ -40,7 +40,10 @@ MUST_HIT = ["prefix:empty", "prefix:equal", "prefix:nested", "cc:16hl", "cc:16lh
             "resp:pos-mrp", "resp:neg-nrc", "gnr", "gnr:mrp", "msg:own-request", "msg:own-pos",
             "msg:own-neg", "msg:own-gnr", "msg:truncated", "msg:exhaustive", "msg:random",
             "attributed:request", "attributed:pos", "attributed:neg", "attributed:gnr",
-            "shared-must", "raise-ok", "via-request:ok", "groups:ok", "cc:midbyte", "attributed:midbyte", "attributed:nrc0"]
+            "shared-must", "raise-ok", "via-request:ok", "groups:ok", "cc:midbyte", "attributed:midbyte", "attributed:nrc0",
+            "pos:implicit", "val:crossing", "crossing:cut-inside", "crossing:cut-inside-other-attributed",
+            "nrc:subbyte", "nrc:subbyte-then-implicit", "odxenc:same:request", "odxenc:same:pos",
+            "odxenc:same:neg", "odxenc:same:gnr"]
 
 ALPHA = [0x10, 0x11, 0x22]
 POOL = [0x50, 0x51, 0x62, 0x7F, 0x10, 0x11, 0x22]
@@ -117,6 +120,23 @@ def layers_strategy():
                 {"k": "val", "name": "vsub", "pos": pos, "bit": vbit, "len": 8 - k, "hl": True}]
 
     @st.composite
+    def cross_bytes(draw, pos):
+        """bytes pos..pos+1: a VALUE `vx` of n bits at BIT-POSITION k > 0 that crosses the byte
+        boundary (e.g. 8 bits at bit position 4: the 2-byte word holds `value << 4`, so the value
+        occupies the low bits of byte pos and the high bits of byte pos+1), and optionally a low part
+        of k bits (constant or VALUE) in the free low bits of byte pos+1"""
+        k = draw(st.sampled_from([4, 4, 1, 2, 3, 5, 6, 7]))
+        n = draw(st.sampled_from([8, 8, 16 - k, 9 - k + draw(st.integers(0, 6))]))
+        n = max(9 - k, min(n, 16 - k))
+        out = [{"k": "val", "name": "vx", "pos": pos, "bit": k, "len": n, "hl": True}]
+        low = draw(st.integers(0, 2))
+        if low == 1:
+            out.append(_cc("clow", pos + 1, draw(st.sampled_from(ALPHA + [0x35, 0x0F])) & ((1 << k) - 1), k, 0, True))
+        elif low == 2:
+            out.append({"k": "val", "name": "vlow", "pos": pos + 1, "bit": 0, "len": k, "hl": True})
+        return out if draw(st.booleans()) else out[::-1]
+
+    @st.composite
     def mrp_param(draw, pos, rqlen, npre):
         """optional MATCHING-REQUEST-PARAM echoing existing request bytes.  npre = length of the
         constant request prefix (None: unknown); an echo that is only partly covered by that
@@ -135,16 +155,35 @@ def layers_strategy():
     def response(draw, name, first, rqlen, npre, neg, nrc_vals=None):
         ps = [_cc("sid", 0, first, 8, 0, True)]
         pos = 1
-        if draw(st.integers(0, 6)) == 0:
+        shape = draw(st.integers(0, 11))
+        if shape in (0, 1):
             ps += draw(split_byte(pos))
             pos += 1
+        elif shape in (2, 3):
+            ps += draw(cross_bytes(pos))
+            pos += 2
         m = draw(mrp_param(pos, rqlen, npre))
         if m is not None:
             ps.append(m)
             pos += m["n"]
         if neg and nrc_vals:
-            ps.append({"k": "nrc", "name": "nrcc", "pos": pos, "vals": list(nrc_vals)})
-            ps.append(_val("nrc", pos, 8, True))
+            if draw(st.integers(0, 2)) == 0:
+                # sub-byte NRC-CONST (the alternatives are numbered 0..4 so that disjoint lists stay
+                # disjoint), overlapped by a VALUE of the same extent; the rest of the byte is
+                # unused or carries one more VALUE
+                k = draw(st.sampled_from([4, 4, 3, 5, 6, 7]))
+                b = draw(st.sampled_from([0, 0, 8 - k, draw(st.integers(0, 8 - k))]))
+                pair = [{"k": "nrc", "name": "nrcc", "pos": pos, "bit": b, "len": k,
+                         "vals": sorted(NRCS.index(v) for v in nrc_vals)},
+                        {"k": "val", "name": "nrc", "pos": pos, "bit": b, "len": k, "hl": True}]
+                rest = []
+                if b == 0 and draw(st.booleans()):
+                    rest = [{"k": "val", "name": "vhi", "pos": pos, "bit": k, "len": 8 - k, "hl": True}]
+            else:
+                pair = [{"k": "nrc", "name": "nrcc", "pos": pos, "vals": list(nrc_vals)}, _val("nrc", pos, 8, True)]
+                rest = []
+            # either order is legal; VALUE first lets the next parameter follow the NRC-CONST directly
+            ps += (pair if draw(st.booleans()) else pair[::-1]) + rest
             pos += 1
             ps += draw(tail_params(pos, 1, allow_const=False))
         else:
@@ -159,9 +198,13 @@ def layers_strategy():
             pre = [draw(st.sampled_from(ALPHA)) for _ in range(npre)]
             rq = draw(prefix_params(pre))
             nfix = npre
-            if npre >= 1 and draw(st.integers(0, 5)) == 0:
+            shape = draw(st.integers(0, 11)) if npre >= 1 else 99
+            if shape in (0, 1):
                 rq += draw(split_byte(npre))     # first byte stays completely constant
                 nfix += 1
+            elif shape in (2, 3):
+                rq += draw(cross_bytes(npre))
+                nfix += 2
             rq += draw(tail_params(nfix, 2))
             if not rq and draw(st.integers(0, 3)):
                 rq = [_val("v0", 0, 8, True)]      # a request without any parameter stays rare
@@ -209,7 +252,7 @@ def layers_strategy():
             for p in o["params"]:
                 if p["k"] != "val":
                     continue
-                if nrc is not None and p["pos"] == nrc["pos"]:
+                if nrc is not None and p["name"] == "nrc":
                     vs[p["name"]] = draw(st.sampled_from(nrc["vals"]))
                 elif p["len"] < 8:
                     top = (1 << p["len"]) - 1
@@ -217,8 +260,18 @@ def layers_strategy():
                 elif p["len"] == 8:
                     vs[p["name"]] = draw(byte8)
                 else:
-                    vs[p["name"]] = (draw(byte8) << 8) | draw(byte8)
+                    vs[p["name"]] = ((draw(byte8) << 8) | draw(byte8)) & ((1 << p["len"]) - 1)
             values[o["name"]] = vs
+        # BYTE-POSITION may be omitted where the cursor (byte after the end of the previously listed
+        # parameter) is where the parameter lives anyway
+        for o in objs:
+            end, prev = 0, None
+            for p in o["params"]:
+                a, n = D.param_span(p)
+                # more often right behind an NRC-CONST (which moves the cursor without writing anything)
+                if a == end and draw(st.integers(0, 5)) < (4 if prev == "nrc" else 2):
+                    p["imp"] = True
+                end, prev = a + n, p["k"]
         extra = draw(st.lists(st.binary(min_size=0, max_size=6).map(
             lambda b: bytes(VAL8[x % len(VAL8)] if x < 200 else x for x in b)), max_size=8))
         return {"layer": lay, "values": values, "extra": extra}
@@ -469,6 +522,46 @@ def eval_response(layer, dl, service, resp_obj, req: bytes, resp: bytes):
     return fails, {"via-request:ok"}
 
 
+def eval_own_encoding(layer, dl, kind, service, obj, req: bytes, ref_msg: bytes, vals: dict):
+    """the request / response as encoded *by odxtools* from the original values is attributed to
+    its service with those values.  When odxtools produces the same bytes as the reference encoder
+    the general decode clause already covers the message."""
+    name = service["name"]
+    case = {"kind": "ownenc", "layer": layer, "service": name, "object": obj["name"], "okind": kind,
+            "req": req, "values": vals}
+    svc = dl.services[name]
+    if kind == "request":
+        enc, exc = _call(lambda: bytes(svc.request.encode(**vals)))
+    else:
+        robj = next(r for r in [*svc.positive_responses, *svc.negative_responses,
+                                *dl.global_negative_responses] if r.short_name == obj["name"])
+        enc, exc = _call(lambda: bytes(robj.encode(coded_request=req, **vals)))
+    if exc is not None:
+        return [], {"odxenc:rejected"}
+    if enc == ref_msg:
+        return [], {"odxenc:same", f"odxenc:same:{kind}"}
+    verdict = D.classify(layer, enc)[name]
+    if verdict.ambiguous:
+        return [], {"odxenc:differs-undecided"}
+
+    def mk(detail):
+        return core.Failure(
+            clause="own-encoding",
+            detail=f"{obj['name']} encoded by odxtools from {vals} (request {req.hex()}) is {enc.hex()} "
+                   f"(reference: {ref_msg.hex()}); {detail}",
+            case=core.plain(case), features={"bucket": kind, "okind": kind})
+
+    res, exc = _call(dl.decode, enc)
+    if exc is not None:
+        return [mk(f"decode raised {type(exc).__name__}: {str(exc)[:100]}")], {"odxenc:differs"}
+    for m in res:
+        if m.service.short_name == name and getattr(m.coding_object, "short_name", None) == obj["name"] \
+                and all(k in m.param_dict and _same_value(v, m.param_dict[k]) for k, v in vals.items()):
+            return [], {"odxenc:differs"}
+    got = [(m.service.short_name, getattr(m.coding_object, "short_name", None), dict(m.param_dict)) for m in res]
+    return [mk(f"decode returned {got}, not {name}/{obj['name']} with the original values")], {"odxenc:differs"}
+
+
 def _first_const_kind(service) -> str:
     ps = service["rq"]["params"]
     if not ps or ps[0]["k"] != "cc":
@@ -561,6 +654,17 @@ def layer_classes(layer) -> set:
     objs = [o for s in layer["services"] for o in [s["rq"]] + s["pos"] + s["neg"]] + layer["gnrs"]
     if any(p["name"] == "cmid" for o in objs for p in o["params"]):
         cl.add("cc:midbyte")
+    for o in objs:
+        ps = o["params"]
+        for i, p in enumerate(ps):
+            if p.get("imp"):
+                cl.add("pos:implicit")
+            if p["k"] == "val" and p.get("bit", 0) and p.get("bit", 0) + p["len"] > 8:
+                cl.add("val:crossing")
+            if p["k"] == "nrc" and p.get("len", 8) < 8:
+                cl.add("nrc:subbyte")
+                if (p.get("bit", 0) + p["len"]) % 8 and i + 1 < len(ps) and ps[i + 1].get("imp"):
+                    cl.add("nrc:subbyte-then-implicit")
     if _partial_mrp(layer):
         cl.add("mrp:partial")
     cl.add(f"services:{len(layer['services'])}")
@@ -582,7 +686,7 @@ def own_messages(layer, values):
                 ov = values[o["name"]]
                 out.append((kind, s, o, req, D.encode(o, ov, req), ov))
                 nrc = next((p for p in o["params"] if p["k"] == "nrc"), None)
-                over = nrc and next((p for p in o["params"] if p["k"] == "val" and p["pos"] == nrc["pos"]), None)
+                over = nrc and next((p for p in o["params"] if p["k"] == "val" and p["name"] == "nrc"), None)
                 if over:
                     for code in nrc["vals"]:
                         if code != ov[over["name"]]:
@@ -656,11 +760,23 @@ def run_case(case, res: core.ShardResult | None, kf, stop_at_first=True, exhaust
            if any(p["name"] == "cmid" for p in o["params"]) and ov.get("vsub")}
     # own negative / global negative responses whose decisive NRC-CONST byte is 0
     nrc0 = {m for kind, s, o, req, m, ov in own
-            if any(p["k"] == "nrc" and 0 in p["vals"] and m[p["pos"]] == 0 for p in o["params"])}
+            if any(p["k"] == "nrc" and 0 in p["vals"] and D.nrc_value(m, p) == 0 for p in o["params"])}
+    # (lookup prefix, length) of messages that end after the first byte of a VALUE crossing a byte boundary
+    cuts = []
+    for sv in layer["services"]:
+        rp = D.request_prefix(sv)
+        for o in [sv["rq"]] + sv["pos"] + sv["neg"]:
+            for p in o["params"]:
+                if p["k"] == "val" and p.get("bit", 0) and p.get("bit", 0) + p["len"] > 8:
+                    cuts.append((D.const_prefix(o, b"" if o is sv["rq"] else rp), p["pos"] + 1))
     first = True
     for m, mclass in msgs.items():
         fails, classes, matched = eval_decode(layer, dl, m)
         classes.add(mclass)
+        if any(len(m) == n and pre and m.startswith(pre) for pre, n in cuts):
+            classes.add("crossing:cut-inside")
+            if any(c.startswith("attributed:") for c in classes):
+                classes.add("crossing:cut-inside-other-attributed")
         if m in mid:
             classes.add("msg:own-midbyte-nonzero")
             if any(c.startswith("attributed:") for c in classes):
@@ -676,6 +792,15 @@ def run_case(case, res: core.ShardResult | None, kf, stop_at_first=True, exhaust
             nontriv = interesting and (matched or m in truncs)
             res.note({"kind": "decode", "layer": layer, "msg": m}, nontriv, classes,
                      dig=(ldig, "decode", m.hex()))
+        account(fails)
+        if new_fails and stop_at_first:
+            return new_fails
+    # --- what odxtools itself encodes is attributed to the service ----------------
+    for kind, s, o, req, m, ov in own:
+        fails, classes = eval_own_encoding(layer, dl, kind, s, o, req, m, ov)
+        if res is not None:
+            res.note({"kind": "ownenc", "layer": layer, "service": s["name"], "object": o["name"],
+                      "values": ov}, interesting, classes, dig=(ldig, "ownenc", o["name"], s["name"], m.hex()))
         account(fails)
         if new_fails and stop_at_first:
             return new_fails
@@ -714,6 +839,12 @@ def replay(case) -> list:
         s = next(x for x in layer["services"] if x["name"] == case["service"])
         o = next(x for x in s["pos"] + s["neg"] + layer["gnrs"] if x["name"] == case["object"])
         return eval_response(layer, dl, s, o, bytes(case["req"]), bytes(case["resp"]))[0]
+    if kind == "ownenc":
+        s = next(x for x in layer["services"] if x["name"] == case["service"])
+        o = next(x for x in [s["rq"]] + s["pos"] + s["neg"] + layer["gnrs"] if x["name"] == case["object"])
+        req = bytes(case["req"])
+        return eval_own_encoding(layer, dl, case["okind"], s, o, req,
+                                 D.encode(o, case["values"], req), case["values"])[0]
     if kind == "groups":
         return eval_groups(layer, dl)[0]
     raise ValueError(f"unknown case kind {kind!r}")
